@@ -304,7 +304,8 @@ type LakeRun struct {
 	Tag      string // prefix for failure signatures, e.g. "C14"
 	Log      []string
 	Remote   bool
-	Coq      *CoqHist // when non-nil, the history is also recorded for the Coq correspondence
+	Merge    *MergeRec // when non-nil, merges and reverts are recorded for coq/Model/MergeCases.v
+	Coq      *CoqHist  // when non-nil, the history is also recorded for the Coq correspondence
 }
 
 func cloneSet(m map[ksuid.KSUID]bool) map[ksuid.KSUID]bool {
@@ -619,9 +620,9 @@ func (lr *LakeRun) apply(op HOp, hop *string) (err error) {
 	case "branch":
 		at := ksuid.Nil
 		var inherit []*SpecCommit
-		if op.Commit > 0 && op.Commit <= len(b.Commits) {
-			at = b.Commits[op.Commit-1].ID
-			inherit = append(inherit, b.Commits[:op.Commit]...)
+		if n := op.Commit % (len(b.Commits) + 1); n > 0 {
+			at = b.Commits[n-1].ID
+			inherit = append(inherit, b.Commits[:n]...)
 		}
 		err = lr.API.CreateBranch(ctx, lr.PoolID, op.Other, at)
 		if err == nil {
@@ -635,7 +636,25 @@ func (lr *LakeRun) apply(op HOp, hop *string) (err error) {
 			return nil
 		}
 		base := commonAncestorSpec(b, child)
+		var mcase string
+		if lr.Merge != nil {
+			pa, ok1 := lr.actsSince(b, base)
+			ca, ok2 := lr.actsSince(child, base)
+			if ok1 && ok2 {
+				mcase = fmt.Sprintf("(%v, %s, %s, %s", base.ID != ksuid.Nil, lr.Merge.set(base.Objs), pa, ca)
+			}
+		}
 		commit, err = lr.API.MergeBranch(ctx, lr.PoolID, op.Other, op.Branch, msgOf("merge"))
+		if mcase != "" {
+			after := tip.Objs
+			if objs, oerr := lr.Objects(op.Branch); oerr == nil {
+				after = map[ksuid.KSUID]bool{}
+				for _, o := range objs {
+					after[o.ID] = true
+				}
+			}
+			lr.Merge.MergeCases = append(lr.Merge.MergeCases, fmt.Sprintf("%s, %v, %s)", mcase, err == nil, lr.Merge.set(after)))
+		}
 		if err == nil {
 			ct := child.Tip()
 			for id := range ct.Objs {
@@ -655,16 +674,33 @@ func (lr *LakeRun) apply(op HOp, hop *string) (err error) {
 			contentCheck = "objs"
 		}
 	case "revert":
-		if op.Commit >= len(b.Commits) {
+		if len(b.Commits) == 0 {
 			return nil
 		}
-		target := b.Commits[op.Commit]
+		ci := op.Commit % len(b.Commits)
+		target := b.Commits[ci]
 		parent := &SpecCommit{Objs: map[ksuid.KSUID]bool{}, Vecs: map[ksuid.KSUID]bool{}}
-		if op.Commit > 0 {
-			parent = b.Commits[op.Commit-1]
+		if ci > 0 {
+			parent = b.Commits[ci-1]
 		}
 		desc = fmt.Sprintf("revert@%s %s", op.Branch, target.ID)
+		var rcase string
+		if lr.Merge != nil {
+			if ta, aerr := lr.commitActs(target.ID); aerr == nil {
+				rcase = fmt.Sprintf("(%s, [%s], %s", lr.Merge.set(parent.Objs), strings.Join(ta, "; "), lr.Merge.set(tip.Objs))
+			}
+		}
 		commit, err = lr.API.Revert(ctx, lr.PoolID, op.Branch, target.ID, msgOf("revert"))
+		if rcase != "" {
+			after := tip.Objs
+			if objs, oerr := lr.Objects(op.Branch); oerr == nil {
+				after = map[ksuid.KSUID]bool{}
+				for _, o := range objs {
+					after[o.ID] = true
+				}
+			}
+			lr.Merge.RevertCases = append(lr.Merge.RevertCases, fmt.Sprintf("%s, %v, %s)", rcase, err == nil, lr.Merge.set(after)))
+		}
 		if err == nil {
 			for id := range target.Objs {
 				if !parent.Objs[id] { // added by target
